@@ -396,8 +396,15 @@ static std::string run_case(const std::vector<std::string> &t)
             for (auto &x : l)
                 got.push_back(toZ(x));
             std::vector<Z> want(sol.begin(), sol.end());
-            if (got != want)
-                complain("powermod_list: not the increasing list of all roots in [0,m)");
+            if (got != want) {
+                std::set<Z> gs;
+                for (auto &x : got)
+                    gs.insert(fmod(x, zm));
+                if (gs == sol and got.size() == want.size())
+                    complain("powermod_list: roots are not reduced to [0,m)");
+                else
+                    complain("powermod_list: not the increasing list of all roots in [0,m)");
+            }
         }
     } else if (c == "bin" and n == 2) {
         unsigned long k = std::stoul(t[2]);
@@ -432,7 +439,7 @@ static std::string run_case(const std::vector<std::string> &t)
             complain("fibonacci/fibonacci2 do not follow the recurrence");
         if (toZ(l) != la)
             complain("lucas does not follow the recurrence");
-        if (k >= 1) {
+        {
             lucas2(outArg(l1), outArg(l0), k);
             o << " " << str(l1) << " " << str(l0);
             if (toZ(l1) != la or toZ(l0) != lb - la)
